@@ -65,7 +65,11 @@ func hostTemplate() (consensus.State, *chain.Keyring) {
 	for _, n := range []string{"A", "B", "X", "Y", "R", "H"} {
 		sim.K.Addr(n)
 	}
-	return sim.CS, sim.K
+	cs := sim.CS
+	// every siafund element of a real history has ClaimStart <= the pool (ApplyTransaction subtracts); the
+	// synthetic siafund elements keep that invariant against this value
+	cs.SiafundTaxRevenue = types.NewCurrency(0, 4)
+	return cs, sim.K
 }
 
 type slice struct {
@@ -229,7 +233,7 @@ func finish(c *vlib.Ctx, st *stats, traces int64) {
 	for _, n := range st.asks {
 		evals += n
 	}
-	for _, d := range []string{"shim", "vte", "v2txn", "supp"} {
+	for _, d := range []string{"shim", "vte", "v2txn", "supp", "supp-used"} {
 		if st.asks[d] == 0 {
 			c.Infra("vacuity: door %s never used", d)
 		}
@@ -249,6 +253,7 @@ func finish(c *vlib.Ctx, st *stats, traces int64) {
 		for _, l := range suppLists(k) {
 			need = append(need, "supp:"+l)
 		}
+		need = append(need, "supp-used:"+usedRole(k))
 	}
 	for _, d := range need {
 		v := st.verdicts[d]
@@ -278,7 +283,7 @@ func finish(c *vlib.Ctx, st *stats, traces int64) {
 			d = append(d, "vte", "v2txn")
 		}
 		if len(suppLists(k)) > 0 {
-			d = append(d, "supp")
+			d = append(d, "supp", "supp-used")
 		}
 		return d
 	}
@@ -294,10 +299,10 @@ func finish(c *vlib.Ctx, st *stats, traces int64) {
 	}
 	for d, ms := range missing {
 		sort.Strings(ms)
-		if d == "v2txn" {
+		if d == "v2txn" || d == "supp-used" {
 			// fields whose alteration makes every attacker transaction invalid for another reason cannot be
 			// judged through this door; they are reported, and judged through the three other doors
-			c.Cov("v2txn_fields_without_decisive_probe", ms)
+			c.Cov(d+"_fields_without_decisive_probe", ms)
 			continue
 		}
 		c.Infra("vacuity: door %s never rejected a mutation of %s", d, strings.Join(ms, ", "))
